@@ -156,7 +156,9 @@ def c06(tier):
              + mk("hostile", 250 if q else 10000, s + 1, "tiny", n_ops=50)
              + mk("hostile", 150 if q else 8000, s + 2, "smallbuf", n_ops=50)
              + mk("hostile", 200 if q else 8000, s + 3, "default", lane="msan", n_ops=40)
-             + mk("bus", 60 if q else 2000, s + 4, "default", lane="msan", n_ops=50))
+             + mk("bus", 60 if q else 2000, s + 4, "default", lane="msan", n_ops=50)
+             + mk("tablefull", 40 if q else 1500, s + 5, "default", fetches=14) + mk("tablefull", 20 if q else 800, s + 6, "tiny", fetches=14)
+             + mk("tablefull", 20 if q else 800, s + 7, "odd", fetches=14) + mk("tablefull", 12 if q else 400, s + 8, "default", lane="msan"))
     # every proper prefix of well-formed messages, each as the first and only message of a fresh connection
     for m in range(len(scen_hostile.PREFIX_MESSAGES)):
         for tr in ("raw", "uds", "ws"):
@@ -170,12 +172,14 @@ def c06(tier):
                   "hostile byte streams on all endpoints (raw, unix socket, HTTP/WebSocket): near-valid JSON-RPC with hostile member shapes/names/lengths/"
                   "duplicates, length-prefix games, mutated HTTP upgrades, the WebSocket opcode/FIN/RSV/MASK/length grid, byte-level mutations of valid sessions; "
                   "random segmentation, epoll batching and read-buffer scribbling; oracle: AddressSanitizer+UBSan+LeakSanitizer silent (gcc lane) and MemorySanitizer silent (clang lane, whole daemon instrumented), daemon stays in its loop, "
-                  "and two witness connections keep being served correctly; plus a coverage-guided lane (libFuzzer, clang ASan+UBSan+LSan): one input = one whole "
+                  "and two witness connections keep being served correctly; 'tablefull' sessions: legal requests that make the fixed-size tables refuse (33+ states "
+                  "in one home bucket of the path index, more fetches than the fetch table holds) followed by further use of what the refused request touched "
+                  "(remove / change / re-add, get and fetch by another peer, the end of the connection); plus a coverage-guided lane (libFuzzer, clang ASan+UBSan+LSan): one input = one whole "
                   "daemon lifetime scripted on the simulated kernel (connects, raw bytes, framed messages, batches, FIN/RST, write budgets, clock steps), ended "
                   "through the loop's error exit with heap / peer / descriptor / hygiene invariants asserted (8 x 8 000 executions in quick, 16 x 400 000 in "
                   "thorough, bounded by execution count); distinct = input-shape signatures and coverage buckets",
                   t0, tier, SIM_ASSUME + ["gcc ASan/UBSan see only heap/stack/global red zones and the UB kinds they instrument"],
-                  min_events={"frames_generated": 20000, "http_status_400": 100, "ws_close_1002": 100, "fuzz_executions": 50000})
+                  min_events={"frames_generated": 20000, "http_status_400": 100, "ws_close_1002": 100, "fuzz_executions": 50000, "table_full_refusals": 200})
 
 
 def _unit(pid, modname):
@@ -530,14 +534,15 @@ def c09(tier):
                   "zero-length frames, messages ending at the buffer end, truncated JSON followed by its continuation, trailing bytes inside the declared "
                   "length, lengths above the maximum) is executed once as reference (one whole unit per wake-up) and under 6 (quick) / 16 (thorough) kernel "
                   "policies: 1..7-byte and random chunks, polls between chunks, prefixes of the next unit coalesced into the same read, batch size 1 / "
-                  "shuffled batches, spurious wake-ups, and the read buffer behind the received bytes scribbled with 0x00 / } / quote / ]}-tails / 0xff / "
+                  "shuffled batches, spurious wake-ups, 'readable' and 'writable again' of one connection grouped into one readiness event (a connection whose "
+                  "output was parked reads again and at the same moment sends an unanswered unit) vs reported as two, and the read buffer behind the received bytes scribbled with 0x00 / } / quote / ]}-tails / 0xff / "
                   "digits / random; the decoded output of every connection must be identical; plus the parse_message tap (content handed to the JSON layer "
                   "== k-th message sent) over bus and hostile workloads; fidelity anchor: the reference run on the simulated kernel is compared with the same "
                   "script against the unwrapped daemon on the real Linux kernel in its own network namespace (fenced, no sleeps): identical decoded output per "
                   "connection is what justifies trusting the simulated kernel; distinct = (policy, size class, transports) signatures",
                   t0, tier, SIM_ASSUME + ["cross-connection output order is not compared; message completions keep the reference's global order (the property's side condition)"],
                   extra_cov={"real_kernel_lane": "run" if have_real else "unavailable in this environment (unshare -n not permitted): skipped"},
-                  min_events=dict({"variant_runs": 1000, "variants_identical": 1, "messages_parsed": 5000}, **({"traces_validated_against_real_kernel": 50} if have_real else {})))
+                  min_events=dict({"variant_runs": 1000, "variants_identical": 1, "messages_parsed": 5000, "readable_and_writable_in_one_event": 50}, **({"traces_validated_against_real_kernel": 50} if have_real else {})))
 
 
 def _out_combos(rng, wbuf, n, dense=None):
@@ -596,7 +601,9 @@ def c11(tier):
     q = tier == "quick"
     cases = (mk("faulty", 500 if q else 12000, s, "smallbuf", n_ops=70)
              + mk("faulty", 250 if q else 8000, s + 1, "default", n_ops=70)
-             + mk("faulty", 150 if q else 4000, s + 2, "tiny", n_ops=70))
+             + mk("faulty", 150 if q else 4000, s + 2, "tiny", n_ops=70)
+             + mk("bystander", 60 if q else 1500, s + 3, "default") + mk("bystander", 40 if q else 1000, s + 4, "smallbuf")
+             + mk("bystander", 20 if q else 500, s + 5, "odd"))
     res = run_cases(cases)
     return report("C11", "fault_enumeration", res,
                   "random bus histories in which a growing subset of peers is made faulty at seeded moments: stops reading (write budget 0/1/5/70 bytes, 1-byte "
@@ -604,5 +611,9 @@ def c11(tier):
                   "ENFILE / ENOBUFS / ENOMEM / EINTR / EPROTO followed by a fresh connection that must be served; the faulty peers sit at seeded positions of the "
                   "subscriber tables; all replica / RPC / routing monitors stay armed for the healthy peers (errors that report a failed delivery are tolerated, "
                   "their effect is read back through a healthy connection and every healthy replica must agree with it); the 256-byte write buffer "
-                  "configuration makes buffers overflow within a few notifications; distinct = (fault kind, transport, role) signatures",
-                  t0, tier, SIM_ASSUME, min_events={"faults": 1000, "accept_faults": 100, "replica_checks_nonempty": 10000, "frames_refused": 100})
+                  "configuration makes buffers overflow within a few notifications; 'bystander' histories: a healthy subscriber with parked output reads "
+                  "again directly after another connection ended inside its own readiness event (garbage, over-long length prefix, end of stream, RST) or "
+                  "another peer's routed request ran into its deadline, nothing else becoming readable in between - its byte stream must then be complete; "
+                  "distinct = (fault kind, transport, role) signatures",
+                  t0, tier, SIM_ASSUME, min_events={"faults": 1000, "accept_faults": 100, "replica_checks_nonempty": 10000, "frames_refused": 100,
+                                                    "bystander_rounds": 500})
